@@ -686,7 +686,10 @@ def replay_atype(cases, F, mon):
             base = [1, "a", 2.5]
         else:
             base = [A.concrete(kind, i + 1, 0) if kind != "bool" else bool(i % 2) for i in range(3)]
-        if nullable:
+        # a nullable column does not have to HOLD a None (it may have been overwritten or sliced away): promotion keeps the
+        # nullability of the dtype either way
+        holds_none = nullable and (n_case // 2) % 2 == 0
+        if holds_none:
             base[2] = None
         from serif import DataType
         py_kind = {v: k for k, v in A._KIND_TAG.items()}[kind]
@@ -694,7 +697,7 @@ def replay_atype(cases, F, mon):
         values = [A.concrete(t, 5 + j, 1) for j, t in enumerate(tags)]
         m = len(values)
         before, fp_before = vec_view(v), v.fingerprint()
-        info = {"column": [kind, nullable], "values": [repr(x) for x in values]}
+        info = {"column": [kind, nullable], "values": [repr(x) for x in values], "column holds a None": holds_none}
         forms = [lambda: v.__setitem__(slice(0, m), list(values))]
         if m == 1:
             forms = [lambda: v.__setitem__(0, values[0]), lambda: v.__setitem__([True, False, False], values[0])][n_case % 2: n_case % 2 + 1]
@@ -902,11 +905,16 @@ def fplaws(out_path):
               "complex": [1j, -1j, 3 + 4j, -3 - 4j, 3 - 4j, 0j, None],
               "str": ["a", "", "b", "A", " a", None],
               "bool": [True, False, None],
-              "date": [_d(2020, 1, 1), _d(2020, 1, 2), _d(1, 1, 1), None]}
+              "date": [_d(2020, 1, 1), _d(2020, 1, 2), _d(1, 1, 1), None],
+              # object columns: unhashable cells are told apart by their contents, recursively
+              "object": [{"a": 3, "b": 4}, {"a": 3, "b": 40}, {"a": 3}, {"b": 4, "a": 3, "c": None}, [1, 2], [1, 3], [1, [2, {"k": 1}]], [1, [2, {"k": 2}]],
+                         (1, 2), {1, 2}, {1, 3}, "x", None]}
 
     def unequal(x, y):
         if x is None or y is None:
             return (x is None) != (y is None)
+        if isinstance(x, (dict, list, set, tuple)) or isinstance(y, (dict, list, set, tuple)):
+            return type(x) is type(y) and x != y          # containers of different type with equal items are not compared
         if isinstance(x, float) and isinstance(y, float) and math.isnan(x) and math.isnan(y):
             return False
         return x != y and hash(x) != hash(y)
@@ -927,6 +935,8 @@ def fplaws(out_path):
                     "index-list": lambda v: v.__setitem__([pos], [y]),
                 }
                 for pname, write in paths.items():
+                    if kind == "object" and pname == "mask":
+                        continue               # an iterable value under a mask key is a sequence of values, not one cell
                     for memo in (True, False):
                         v = Vector(list(base))
                         fp0 = v.fingerprint() if memo else Vector(list(base)).fingerprint()
@@ -941,6 +951,8 @@ def fplaws(out_path):
                             F.add("fp_order", case, "the write did not change the fingerprint", "a different fingerprint")
                 # through a table: cell assignment, live column view, attribute replacement
                 for pname in ("cell", "view", "attribute"):
+                    if kind == "object" and pname == "cell":
+                        continue               # t[i, 'x'] = <iterable> is a row / region assignment
                     t = Table({"x": list(base), "k": [1, 2, 3]})
                     ft0 = t.fingerprint()
                     if pname == "cell":
